@@ -427,6 +427,32 @@ def check_case(p, ctx):
     problems = []
     if why:
         problems.append(("differs_from_definition", f"{label}: {why}", f"{label}:mismatch:{why.split()[0]}"))
+    elif np.ndim(ev) >= 1 and np.size(ev):
+        # a slice of the result (the optimizer pushes it through the window operation: halos near the cut and near the
+        # array's edges must still come from the whole array)
+        r = random.Random(p["seed"] + 17)
+        idx = []
+        for n in np.shape(ev):
+            t = r.random()
+            if t < 0.3 or n < 2:
+                idx.append(slice(None))
+            elif t < 0.45:
+                idx.append(r.randrange(n))
+            else:
+                lo = r.choice([0, 1, 2, r.randrange(n)])
+                lo = min(lo, n - 1)
+                hi = r.choice([n, n - 1, n - 2, r.randint(lo + 1, n)])
+                hi = max(lo + 1, min(hi, n))
+                idx.append(slice(lo, hi))
+        idx = tuple(idx)
+        try:
+            gs = y[idx].compute()
+            ctx.count("sliced_results_compared")
+            why2 = same(np.asarray(ev)[idx], gs, inexact, mag, check_dtype=kind not in ("move",))
+            if why2:
+                problems.append(("slice_of_result_differs", f"{label}[{idx}]: {why2}", f"{label}:slice:{why2.split()[0]}"))
+        except Exception as e:
+            problems.append(("slice_of_result_raises", f"{label}[{idx}]: {short_tb(e)}", f"{label.split('.')[0]}:slice:raise:{type(e).__name__}:{exc_site(e)}:{msg_key(e)}"))
     try:
         adv = tuple(sum(c) for c in y.chunks)
         if tuple(np.shape(got)) != adv and not any(c != c for dim in y.chunks for c in dim):
